@@ -546,6 +546,94 @@ func runC07(c *ctx) error {
 			}
 		}
 	}
+	// ---- oracle 3: precedence by construction, with repeated `<<` keys and sequences of sources. Flat sources with
+	// overlapping keys whose values name their source; the body interleaves explicit keys, `<<: *s` and `<<: [*s, *t]`.
+	// Expected content: an explicit key has its explicit value wherever it stands; every other key has the value of
+	// the first source, in the order the sources are written (across all the `<<` keys), that has it.
+	for i := 0; i < n/4; i++ {
+		names := []string{"sa", "sb", "sc", "sd"}
+		pool := []string{"k1", "k2", "k3", "k4", "k5", "k6"}
+		srcKeys := map[string][]string{}
+		var b strings.Builder
+		b.WriteString("defs:\n")
+		for _, sn := range names {
+			fmt.Fprintf(&b, "  - &%s {", sn)
+			first := true
+			for _, k := range pool {
+				if rng.Intn(2) == 0 {
+					if !first {
+						b.WriteString(", ")
+					}
+					first = false
+					fmt.Fprintf(&b, "%s: %s-%s", k, sn, k)
+					srcKeys[sn] = append(srcKeys[sn], k)
+				}
+			}
+			b.WriteString("}\n")
+		}
+		b.WriteString("m:\n")
+		want := map[string]string{}
+		explicit := map[string]bool{}
+		var order []string // sources in written order
+		nItems := 2 + rng.Intn(5)
+		merges := 0
+		for j := 0; j < nItems; j++ {
+			switch rng.Intn(3) {
+			case 0:
+				k := core.Pick(rng, pool)
+				if explicit[k] {
+					continue
+				}
+				explicit[k] = true
+				want[k] = "explicit-" + k
+				fmt.Fprintf(&b, "  %s: explicit-%s\n", k, k)
+			case 1:
+				sn := core.Pick(rng, names)
+				order = append(order, sn)
+				merges++
+				fmt.Fprintf(&b, "  <<: *%s\n", sn)
+			default:
+				s1, s2 := core.Pick(rng, names), core.Pick(rng, names)
+				order = append(order, s1, s2)
+				merges++
+				fmt.Fprintf(&b, "  <<: [*%s, *%s]\n", s1, s2)
+			}
+		}
+		for _, sn := range order {
+			for _, k := range srcKeys[sn] {
+				if _, have := want[k]; !have {
+					want[k] = sn + "-" + k
+				}
+			}
+		}
+		src := b.String()
+		var root yaml.Node
+		if err := yaml.Unmarshal([]byte(src), &root); err != nil {
+			continue // yaml.v3's parser refuses the text: not an input of DecodeYAML
+		}
+		c.res.OracleChecks++
+		res, finished := decodeWithTimeout(&root, 20*time.Second)
+		desc := map[string]any{"document": src}
+		if !finished || res.pn != "" || res.err != nil {
+			c.res.Fail(core.OracleFailure{What: "DecodeYAML fails on an acyclic document with repeated merge keys", Input: desc, Got: fmt.Sprint(finished, res.pn, res.err)})
+			continue
+		}
+		got := map[string]string{}
+		if top, ok := res.v.(*ordered.MapSA); ok {
+			if mv, ok := top.Get("m"); ok {
+				if mm, ok := mv.(*ordered.MapSA); ok {
+					mm.Range(func(k string, v any) error { got[k] = fmt.Sprint(v); return nil })
+				}
+			}
+		}
+		if !reflect.DeepEqual(got, want) {
+			c.res.Fail(core.OracleFailure{What: "merge precedence: explicit keys beat merged ones, earlier sources beat later ones (across repeated << keys and sequences of sources)", Input: desc, Got: fmt.Sprint(got), Want: fmt.Sprint(want)})
+		}
+		c.res.Case("precedence:"+src, merges > 0)
+		if merges > 1 {
+			c.res.Hist("precedence.repeated-merge-keys")
+		}
+	}
 	c.res.Rule = "flow-style YAML documents with 0-5 anchored definitions (mappings, sequences, scalars; later ones referring to earlier ones) and a body using aliases as values and keys, single / repeated / sequence / inline merges at any position; parsed by the real yaml.v3; one case in four additionally gets a back-edge by graph surgery (alias retarget, direct merge edge, sequence back-edge, self value). Compared: decoded value (order-preserving) or error class (recursion / other). Non-trivial = the document uses at least one alias; distinct by (document, surgery)."
 	mm, total, err := core.RunSessions(c.driver, shards, 20, 0)
 	c.res.ModelRequests = total
